@@ -6,7 +6,7 @@ DET = {
  # id/k : (detected_by, fingerprint or note)
  "C01/1": ("./check C01 quick", "disagreement (scenario tri-boundary, partition+echo policy, K=0); also C08 IsStrongQuorum-inexact"),
  "C01/2": (None, "not caught: needs a three-round constellation with two cooperating sites (replayed old-round justification + second DECIDE from a participant already in DECIDE); beyond K<=3 around the available base schedules"),
- "C02/1": ("./check C07 quick", "vote-for-unproven-value:PREPARE (same change as C07/2); the C02 monitor itself (a *decision* on a foreign value) needs >=5 honest participants with an exactly-2/3 view and is not reached"),
+ "C02/1": ("./check C02 quick", "decision-not-prefix-of-honest-input (scenario eq6-two-thirds-view: six equal members, slow links, one Byzantine broadcast holding the best ticket); also C07 vote-for-unproven-value:PREPARE"),
  "C02/2": (None, "not caught: needs two different lagging participants skipping in two different rounds while the Byzantine participant holds the best ticket"),
  "C03/1": ("./check C03 quick", "proof-aggregate-invalid (scenario hon4-odd-supplemental, K=0)"),
  "C03/2": ("./check C03 quick", "proof-cert-rejected (dust power table; needs the key-set-bound aggregate scheme vfix.KeySetBound)"),
@@ -32,6 +32,18 @@ DET = {
  "C13/2": ("./check C13 quick", "two-stage-differs-from-one-shot:matching/other"),
  "C14/1": ("./check C14 quick", "signed-bytes-collision (needed tipset keys at the 255/256 and 759/760 byte boundaries)"),
  "C14/2": ("./check C14 quick", "conc:concurrent-decode-corrupts-value (engine E2, two concurrent ZSTD decodes)"),
+ "C15/1": ("./check C15 quick", "proposal-not-collapsed-on-divergence (head on a sibling of the base at the base's epoch)"),
+ "C15/2": ("./check C15 quick", "committee-from-unfinalized-history / committee-wrong-table at instance initial+lookback"),
+ "C16/1": ("./check C16 quick", "server-serves-more-than-requested (first 0, limit 0)"),
+ "C16/2": ("./check C16 quick", "poller-misclassifies-honest-peer (needed: certificates gained locally between poller creation and poll)"),
+ "C17/1": ("./check C17 quick", "imported-store-does-not-keep-working (export end on a checkpoint boundary; needed: keep using the imported store)"),
+ "C17/2": ("./check C17 quick", "snapshot-with-wrong-intermediate-table-accepted"),
+ "C18/1": ("./check C18 quick", "admitted-chain-prefix-not-retrievable (history look rem flood remprobe)"),
+ "C18/2": ("./check C18 quick", "inadmissible-broadcast-admitted:future-timestamp"),
+ "C19/1": ("./check C19 quick", "sim-accepts-valid-then-reuse-signature-other-value (needed: a valid decision reported before the forgery)"),
+ "C19/2": ("./check C19 quick", "certchain-lookback-differs-from-node-rule"),
+ "C20/1": ("./check C20 quick", "wait-extended-beyond-request-time (needed: a certificate arriving locally while a request is in flight)"),
+ "C20/2": ("./check C20 quick", "poll-progress-not-store-advance (two peers, local arrival during the first request)"),
 }
 for d in sorted(glob.glob('/verif/seeded/C*/*')):
     if not os.path.isdir(d): continue
